@@ -438,6 +438,50 @@ def _conjuncts(test):
     return [test]
 
 
+def _closed_form_counts(br, kind):
+    """Closed-form family of the zero counts (no loop): every path returns ExprInt(V, W) with, under the path's knowledge about x == 0,
+         cnttrailzeros:  x == 0 -> W ;  x != 0 -> (x & -x).bit_length() - 1
+         cntleadzeros :  x == 0 -> W ;  otherwise W - x.bit_length()   (which is W for x == 0 too)
+    Returns (zero_ok, formula_ok, detail) or None when the branch is not of this family."""
+    from sa.symval import paths
+    from sa.astutil import linear
+    ps = [p_ for p_ in paths(br.body) if p_.kind == "return"]
+    if not ps or any(isinstance(n, (ast.While, ast.For)) for st in br.body for n in ast.walk(st)):
+        return None
+    zero_ok = formula_ok = False
+    seen = []
+    for p_ in ps:
+        v = p_.value
+        if not (isinstance(v, ast.Call) and norm(v.func) == "ExprInt" and len(v.args) == 2 and _canon_x(norm(v.args[1])) == "W"):
+            return None
+        know = None                       # True: x == 0 on this path, False: x != 0, None: unknown
+        for t, b in p_.conds:
+            c = _canon_x(norm(t))
+            if c in ("x==0", "0==x", "notx"):
+                know = b
+            elif c in ("x!=0", "0!=x", "x"):
+                know = not b
+        a0 = ast.parse(_canon_x(norm(v.args[0])), mode="eval").body
+        terms, c = linear(a0)
+        terms = dict((k_.replace(" ", ""), v_) for k_, v_ in terms)
+        seen.append("%s -> %s" % ({True: "x == 0", False: "x != 0", None: "any x"}[know], _canon_x(norm(v.args[0]))))
+        if terms == {"W": 1} and c == 0:
+            if know is True:
+                zero_ok = True
+            else:
+                return False, False, "the width is returned for %s" % seen[-1]
+        elif kind == "lead" and terms == {"W": 1, "x.bit_length()": -1} and c == 0:
+            formula_ok = True
+            if know is None:
+                zero_ok = True            # W - 0 for x == 0
+        elif kind == "trail" and c == -1 and len(terms) == 1 and list(terms.values()) == [1] and \
+                list(terms)[0] in ("(x&-x).bit_length()", "(-x&x).bit_length()") and know is False:
+            formula_ok = True
+        else:
+            return zero_ok, False, "closed form not recognised: %s" % seen[-1]
+    return zero_ok, formula_ok, "; ".join(seen)
+
+
 def _r5_counts(ck, m, fn):
     from sa.astutil import straightline_env, linear
     from sa.symval import subst
@@ -462,6 +506,10 @@ def _r5_counts(ck, m, fn):
                 _canon_x(norm(subst(rets[0].value.args[1], env))) == "W"
             ok_t = init is not None and norm(init) == "0" and len(step) == 1 and len(lp.body) == 1 and bound and zero and len(conj) == 2 and r_ok
             detail = "loop `while %s` from i = %s, result `%s`" % (norm(lp.test), norm(init) if init is not None else "?", norm(rets[0].value) if rets else "?")
+        elif not loops:
+            cf = _closed_form_counts(br, "trail")
+            if cf is not None:
+                ok_t, detail = cf[0] and cf[1], "closed form: " + cf[2]
     ck.ob("R5", "cnttrailzeros:zero-gives-size", ok_t, m.where(br or fn),
           "cnttrailzeros must count the zero bits from bit 0 and stop at the width (so that 0 gives the width): %s" % detail)
     # ---- cntleadzeros: 0 -> W; i = W - 1; while bit i zero: i -= 1; result ExprInt(W - (i + 1), W)
@@ -495,6 +543,10 @@ def _r5_counts(ck, m, fn):
             i_ok = init is not None and _canon_x(norm(init)) == "W-1"
             ok_f = i_ok and len(step) == 1 and len(lp.body) == 1 and len(conj) == 1 and _bit_zero(norm(conj[0])) and r_ok
             detail = "loop `while %s` from i = %s, result `%s`" % (norm(lp.test), norm(init) if init is not None else "?", norm(rets[0].value) if rets else "?")
+        elif not loops:
+            cf = _closed_form_counts(br, "lead")
+            if cf is not None:
+                ok_g, ok_f, detail = cf[0], cf[1], "closed form: " + cf[2]
     ck.ob("R5", "cntleadzeros:zero-gives-size", ok_g, m.where(br or fn), "cntleadzeros(0) must fold to the width")
     ck.ob("R5", "cntleadzeros:formula", ok_f, m.where(br or fn), "cntleadzeros must count from the most significant bit: %s" % detail)
     # ---- unary minus
